@@ -12,7 +12,7 @@ import logging
 import kopf
 import vkopf
 from vkopf.driver_api import Ob, split
-from vkopf.symloop import SymLoop, Deadlock, Diverged, Livelock
+from vkopf.symloop import SymLoop, Deadlock, Diverged, Livelock, cancel_all_others
 from vkopf.world import make_resource, PLURAL, base_body
 
 from kopf._cogs.aiokits import aiotoggles
@@ -22,6 +22,7 @@ from kopf._core.actions import lifecycles
 from kopf._core.engines import indexing
 from kopf._core.intents import registries
 from kopf._core.reactor import inventory, processing, queueing
+from kopf._cogs.clients import watching as watching_mod
 
 logging.disable(logging.CRITICAL)
 ENCODED = [indexing.Index._replace, indexing.Index._discard, indexing.Store._replace, indexing.Store._discard,
@@ -219,12 +220,123 @@ def h_index_rules(n: int, o0: bool, o1: bool, o2: bool, del0: bool, del1: bool, 
     return vkopf.verdict(ok)
 
 
+# ------------------------------------------------------------------------------------ H3 the start-up gate
+RA = references.Resource('kopf.dev', 'v1', 'indexedthings', namespaced=True, kind='IndexedThing')
+RB = references.Resource('kopf.dev', 'v1', 'plainthings', namespaced=True, kind='PlainThing')
+
+
+def run_gate(la, lb, na, idx_dur, ties=()):
+    """Real orchestration.spawn_missing_watchers -> queueing.watcher/worker -> process_resource_event (indexing + handlers)
+    for an indexed kind A and a non-indexed kind B whose initial listings arrive after symbolic delays."""
+    import functools
+    from kopf._cogs.clients import api as api_
+    from kopf._core.reactor import orchestration
+    from vkopf import shimdt
+    from kopf._core.actions import progression
+    loop = SymLoop()
+    registry = registries.OperatorRegistry()
+    indexers = indexing.OperatorIndexers()
+    log = []
+
+    @kopf.index('indexedthings', id='idx', registry=registry)
+    async def idx(name, **_):
+        if idx_dur > 0:
+            await asyncio.sleep(idx_dur)
+        log.append(('indexed', loop.time(), name))
+        return {name: 1}
+
+    @kopf.on.event('plainthings', id='evb', registry=registry)
+    async def evb(name, idx, **_):
+        log.append(('handler', loop.time(), name, len(idx)))
+
+    @kopf.on.event('indexedthings', id='eva', registry=registry)
+    async def eva(name, idx, **_):
+        log.append(('handler', loop.time(), name, len(idx)))
+
+    indexers.ensure(registry._indexing.get_all_handlers())
+    settings = configuration.OperatorSettings()
+    settings.queueing.idle_timeout = 1
+    settings.persistence.consistency_timeout = 0
+    memories = inventory.ResourceMemories()
+
+    def body(res, name):
+        return {'apiVersion': 'kopf.dev/v1', 'kind': res.kind, 'metadata': {'name': name, 'namespace': 'ns', 'uid': f'{res.plural}-{name}',
+                                                                              'resourceVersion': '1'}, 'spec': {}}
+
+    async def fake_watch(*, settings, resource, namespace, operator_paused=None):
+        delay, names = (la, [f'a{i}' for i in range(na)]) if resource == RA else (lb, ['b0'])
+        if delay > 0:
+            await asyncio.sleep(delay)
+        for n in names:
+            yield {'type': None, 'object': body(resource, n)}
+        log.append(('listed', loop.time(), resource.plural))
+        yield watching_mod.Bookmark.LISTED
+        await asyncio.Event().wait()
+
+    async def fake_patch(url, **kw):
+        return {'metadata': {'resourceVersion': '2'}}
+
+    async def main():
+        orig = (queueing.watching.infinite_watch, api_.patch)
+        queueing.watching.infinite_watch = fake_watch
+        api_.patch = fake_patch
+        try:
+            paused = aiotoggles.ToggleSet(any)
+            ensemble = orchestration.Ensemble(operator_paused=paused, operator_indexed=aiotoggles.ToggleSet(all),
+                                              peering_missing=await paused.make_toggle(name='pm'))
+            processor = functools.partial(processing.process_resource_event, lifecycle=None, registry=registry, settings=settings,
+                                          indexers=indexers, memories=memories, memobase=ephemera.Memo(), event_queue=asyncio.Queue())
+            from kopf._core.actions import lifecycles
+            processor = functools.partial(processor, lifecycle=lifecycles.all_at_once)
+            await orchestration.spawn_missing_watchers(ensemble=ensemble, settings=settings, processor=processor,
+                                                       indexed_resources={RA}, watched_resources=[RA, RB], watched_namespaces=[None])
+            await asyncio.sleep(la + lb + (na + 1) * idx_dur + 10)
+            await cancel_all_others()
+        finally:
+            queueing.watching.infinite_watch, api_.patch = orig
+    with shimdt.installed(progression):
+        loop.run(main(), ties=ties, max_steps=20000)
+    return log
+
+
+def h_gate(la: int, lb: int, na: int, idx_dur: int, t0: bool, t1: bool) -> bool:
+    """
+    pre: la >= 0 and lb >= 0 and 0 <= na <= 2 and idx_dur >= 0
+    post: _ == True
+    """
+    vkopf.begin_path()
+    na = vkopf.pin('na', na)
+    try:
+        log = run_gate(la, lb, na, idx_dur, ties=[t0, t1])
+    except (Deadlock, Diverged, Livelock):
+        return vkopf.verdict(False)
+    ok = True
+    listed_a = [e[1] for e in log if e[0] == 'listed' and e[2] == 'indexedthings']
+    indexed = [e[1] for e in log if e[0] == 'indexed']
+    handlers_ = [e for e in log if e[0] == 'handler']
+    if len(handlers_) != na + 1 or len(indexed) != na or not listed_a:
+        ok = False
+    ready = listed_a[0] if listed_a else 0
+    for t in indexed:
+        if t > ready:
+            ready = t
+    for (_, t, name, size) in handlers_:
+        # nothing starts before every indexed kind has been listed and each listed object indexed once
+        if t < ready or size != na:
+            ok = False
+    if lb < la:
+        vkopf.witness('plain_kind_listed_first')
+    return vkopf.verdict(ok)
+
+
 def obligations():
     obs = split(Ob('h_index_ops', {}, timeout=900, twins=['two_objects']), n=[1, 2])
     for (s0, s1) in ((3, 1), (1, 4), (3, 3), (2, 0)):
         obs.append(Ob('h_index_ops', {'pin': {'n': 3, 's0': s0, 's1': s1}}, tiers=('quick',), timeout=900))
     obs += split(Ob('h_index_ops', {}, timeout=1500, tiers=('thorough',)), n=[3], s0=[0, 1, 2, 3, 4], s1=[0, 1, 2, 3, 4])
     obs += split(Ob('h_index_ops', {}, timeout=3000, tiers=('thorough',)), n=[4], s0=[0, 1, 2, 3, 4], s1=[0, 1, 2, 3, 4])
+    obs += split(Ob('h_gate', {}, timeout=900, path_timeout=300, twins=['plain_kind_listed_first']), na=[1, 2])
+    obs += split(Ob('h_gate', {}, timeout=900, path_timeout=300, tiers=('thorough',)), na=[0])
     for (k0, k1, o1) in ((0, 3, True), (6, 4, False), (0, 5, True), (1, 2, True), (3, 0, False), (4, 6, True)):
         obs.append(Ob('h_index_rules', {'n': 2, 'errors': 'ignored', 'pin': {'k0': k0, 'k1': k1, 'o0': False, 'm0': True, 'o1': o1, 'del0': False}},
                       tiers=('quick',), timeout=900))
